@@ -1,9 +1,12 @@
 import AbraProofs.Lemmas.GCCycle
 import AbraProofs.Lemmas.GCProgress
+import AbraProofs.Lemmas.GCPacingBound
 /-!
 # C07 — unreachable memory is reclaimed; a dropped runtime frees everything
 
-Model: `Abra.GC` (M5) for reclamation, and an allocation ledger for `Drop`.
+Model: `Abra.GC` (M5) for reclamation, `Abra.GCP` (M5p: object sizes and the counters `heap_size`,
+`last_gc_heap_size`, `gc_debt` on top of M5) for the byte arithmetic of the pacing and the heap bound, and an
+allocation ledger for `Drop`.
 -/
 namespace Abra.GC
 
@@ -140,3 +143,358 @@ example : CycleRun (Reach init) (gcStart init) (Reach init) (gcStep (gcStart ini
   CycleRun.gc (CycleRun.refl _ _) (by decide)
 
 end Abra.GC
+
+/-! ## The pacing: when cycles start, how much an increment does, hence the peak heap -/
+namespace Abra.GCP
+open Abra.GC
+
+/-- **C07, the debt covers the heap.** `heap_size ≤ gc_debt` (with `heap_size` the sum of the object sizes, a
+    duplicate-free gray stack and the invariant of M5) holds for a fresh thread and is preserved by every call
+    of `maybe_gc` (whatever the budget charge `leak`) and by every VM instruction that respects the contract. -/
+theorem C07_debt_covers_heap :
+    PInv pinit ∧ (∀ p leak, PInv p → PInv (maybeGc p leak)) ∧
+    (∀ p p' new pushed, PInv p → PMutatorOK p p' new pushed → PInv p') ∧
+    (∀ p, PInv p → p.heapBytes = sumSize p.size p.g.heap ∧ p.heapBytes ≤ p.debt) :=
+  ⟨pinit_pinv, fun _ leak h => maybeGc_pinv leak h, fun _ _ _ _ h m => pmut_pinv h m,
+   fun _ h => ⟨h.acct, h.debt⟩⟩
+
+theorem finishMark_sweeps {σ : St} (hg : σ.gray = []) (hr : ∀ r ∈ σ.roots, σ.marked r = true) :
+    (finishMark σ).phase = .sweeping := by
+  unfold finishMark
+  rw [hg]; simp only
+  cases hg' : (markAll σ σ.roots).gray with
+  | nil => rfl
+  | cons x g' =>
+    exfalso
+    have hx : x ∈ (markAll σ σ.roots).gray := by rw [hg']; simp
+    rcases markAll_gray_mem _ _ _ hx with h1 | ⟨h1, h2⟩
+    · rw [hg] at h1; simp at h1
+    · rw [hr x h1] at h2; cases h2
+
+/-- **C07, one increment covers the heap.** Under the invariant (debt ≥ heap), with no foreign charge or one
+    that leaves the slice above the heap size: a marking increment runs `process_gray` until the gray stack is
+    empty — and enters the sweep phase unless the root rescan finds a root that is still unmarked; a sweeping
+    increment reaches the end of the heap list: the collector is idle again and `last_gc_heap_size` is the new
+    `heap_size`, the sum of the sizes of the survivors.  (Objects of size 0 and the saturating subtraction do
+    not matter: the slice `2 * gc_debt` exceeds the bytes of all gray and white objects together.) -/
+theorem C07_increment_covers_heap {p : PSt} {leak : Nat} (h : PInv p) (hl : LeakOK p leak) :
+    (p.g.phase = .marking →
+      (markLoop p.size (markFuel p.g) (stepFactor * p.debt - leak) p.g).gray = [] ∧
+      ((∀ r ∈ p.g.roots, (markLoop p.size (markFuel p.g) (stepFactor * p.debt - leak) p.g).marked r = true) →
+        (maybeGc p leak).g.phase = .sweeping) ∧
+      (maybeGc p leak).g.phase ≠ .idle ∧ (maybeGc p leak).heapBytes = p.heapBytes) ∧
+    (p.g.phase = .sweeping →
+      (maybeGc p leak).g.phase = .idle ∧ (maybeGc p leak).lastGc = (maybeGc p leak).heapBytes ∧
+      (maybeGc p leak).heapBytes = sumSize (maybeGc p leak).size (maybeGc p leak).g.heap ∧
+      (maybeGc p leak).heapBytes ≤ p.heapBytes) := by
+  constructor
+  · intro hp
+    have hc := leak_cover h (by rw [hp]; simp) hl
+    have hm : maybeGc p leak = markIncr p leak := by unfold maybeGc; rw [hp]
+    have h1 := markIncr_cover (L := fun _ => True) leak h hp (invL_top _) hc
+    have h2 := markIncr_spec (L := fun _ => True) leak h hp (invL_top _)
+    refine ⟨h1.1, ?_, by rw [hm]; exact h2.2.2.1, by rw [hm]; rfl⟩
+    intro hr
+    rw [hm, markIncr_g]
+    apply finishMark_sweeps h1.1
+    intro r hr'
+    rw [(markLoop_ext _ _ _ _).roots] at hr'
+    exact hr r hr'
+  · intro hp
+    have hm : maybeGc p leak = sweepIncr p := by unfold maybeGc; rw [hp]
+    have h1 := sweepIncr_cover (L := fun _ => True) h hp (invL_top _)
+    have h2 := sweepIncr_spec (L := fun _ => True) h hp (invL_top _)
+    rw [hm]
+    exact ⟨h1.1, h1.2.1, h2.1.acct, h2.2.2.1⟩
+
+theorem sweepIncr_idle_heap {p : PSt} {L : Nat → Prop} (h : PInv p) (hp : p.g.phase = .sweeping)
+    (hL : InvL p.g L) (hid : (sweepIncr p).g.phase = .idle) : ∀ a ∈ (sweepIncr p).g.heap, L a := by
+  have hsw := (sweepLoop_spec (L := L) p.g.todo.length 0 (stepFactor * p.debt) p (swInv_of h hp hL)).1
+  revert hid
+  unfold sweepIncr
+  simp only
+  cases ht : (sweepLoop p.g.todo.length 0 (stepFactor * p.debt) p).g.todo with
+  | cons a r =>
+    simp only
+    intro hid; rw [hsw.phase] at hid; cases hid
+  | nil =>
+    simp only
+    intro _ a ha
+    unfold sweepTail at ha
+    rw [ht] at ha
+    simp only [St.heap, List.nil_append] at ha
+    exact hsw.invL.doneL a ha
+
+/-- A run inside one collection cycle of the pacing model, counting the calls of `maybe_gc` (each with an
+    acceptable foreign charge) and carrying the ghost set; mutator steps are arbitrary contract-abiding VM
+    instructions (and host calls). -/
+inductive PCycleRun : (Nat → Prop) → PSt → (Nat → Prop) → PSt → Nat → Prop
+  | refl (L : Nat → Prop) (p : PSt) : PCycleRun L p L p 0
+  | gc {L L' : Nat → Prop} {p q : PSt} {n : Nat} (leak : Nat) :
+      PCycleRun L p L' q n → q.g.phase ≠ .idle → LeakOK q leak → PCycleRun L p L' (maybeGc q leak) (n + 1)
+  | mutator {L L' : Nat → Prop} {p q q' : PSt} {n : Nat} {new pushed : List Nat} :
+      PCycleRun L p L' q n → PMutatorOK q q' new pushed →
+      PCycleRun L p (fun a => L' a ∨ a ∈ new) q' n
+
+theorem pcycleRun_inv {L L' : Nat → Prop} {ps q : PSt} {n c : Nat} (r : PCycleRun L ps L' q n)
+    (h1 : PInv ps) (h2 : InvL ps.g L) (h3 : rho ps L ≤ c) (h4 : ps.g.phase ≠ .idle) :
+    PInv q ∧ InvL q.g L' ∧ n + rho q L' ≤ c ∧ (q.g.phase = .idle → ∀ a ∈ q.g.heap, L' a) := by
+  induction r with
+  | refl => exact ⟨h1, h2, by omega, fun hid => absurd hid h4⟩
+  | gc leak _ hne hl ih =>
+    obtain ⟨i1, i2, i3, _⟩ := ih h1 h2 h3 h4
+    obtain ⟨g1, g2, g3, _⟩ := gc_cycle_step i1 hne i2 hl
+    refine ⟨g1, g2, by omega, ?_⟩
+    intro hid a ha
+    rename_i _ q0 _ _ _ _
+    cases hq : q0.g.phase with
+    | idle => exact absurd hq hne
+    | marking =>
+      have hm : maybeGc q0 leak = markIncr q0 leak := by unfold maybeGc; rw [hq]
+      rw [hm] at hid
+      exact absurd hid (markIncr_spec (L := fun _ => True) leak i1 hq (invL_top _)).2.2.1
+    | sweeping =>
+      have hm : maybeGc q0 leak = sweepIncr q0 := by unfold maybeGc; rw [hq]
+      rw [hm] at ha hid
+      exact sweepIncr_idle_heap i1 hq i2 hid a ha
+  | mutator _ m ih =>
+    obtain ⟨i1, i2, i3, i4⟩ := ih h1 h2 h3 h4
+    refine ⟨pmut_pinv i1 m, mutator_invL i1.inv m.graph i2, ?_, ?_⟩
+    · rename_i L1 _ _ _ _ _ _ _
+      have := pmut_rho L1 m; omega
+    · intro hid a ha
+      have hp' := hid
+      rw [m.graph.phase] at hp'
+      rw [pmut_heap m] at ha
+      rcases List.mem_append.1 ha with h1 | h1
+      · exact Or.inl (i4 hp' a h1)
+      · exact Or.inr h1
+
+/-- **C07, a cycle spans a bounded number of VM steps.** If the call of `maybe_gc` before step `t` starts a
+    cycle in state `p0`, then under any interleaving with the program at most `reachCount p0 + 2` further calls
+    are made while the collector is not idle (one marking increment per white object that was reachable at the
+    start and that the program moves onto the stack behind the collector's back, plus the increment that ends
+    marking, plus one sweep increment): the collector is idle again by step `t + reachCount p0 + 3` at the
+    latest, and by step `t + 3` when no unmarked root appears.  Moreover what is then allocated was reachable at
+    the start or allocated since. -/
+theorem C07_cycle_spans_k_steps {p0 q : PSt} {L' : Nat → Prop} {n leak0 : Nat} (h0 : PInv p0)
+    (hp : p0.g.phase = .idle) (hgt : p0.heapBytes > p0.lastGc * pauseFactor)
+    (r : PCycleRun (Reach p0.g) (maybeGc p0 leak0) L' q n) :
+    n + rho q L' ≤ reachCount p0 + 2 ∧ (q.g.phase ≠ .idle → n ≤ reachCount p0 + 1) ∧
+    (q.g.phase = .idle → ∀ a ∈ q.g.heap, L' a) := by
+  have hs := gc_start_step leak0 h0 hp hgt
+  have key := pcycleRun_inv r hs.1 hs.2.2.1 hs.2.2.2.2.2.2 (by rw [hs.2.1]; simp)
+  refine ⟨key.2.2.1, ?_, key.2.2.2⟩
+  intro hne
+  have := rho_pos L' hne
+  have := key.2.2.1
+  omega
+
+/-- **C07, the common case: three calls.** When the threshold is exceeded in an idle state and the program does
+    not run in between (or, more generally, no unmarked root appears), the cycle is: start, one marking
+    increment, one sweeping increment — the collector is idle again after three calls of `maybe_gc`. -/
+theorem C07_quiet_cycle_three_steps {p : PSt} (h : PInv p) (hp : p.g.phase = .idle)
+    (hgt : p.heapBytes > p.lastGc * pauseFactor) :
+    (maybeGc (maybeGc (maybeGc p 0) 0) 0).g.phase = .idle ∧
+    (maybeGc (maybeGc (maybeGc p 0) 0) 0).lastGc = (maybeGc (maybeGc (maybeGc p 0) 0) 0).heapBytes := by
+  have hs := gc_start_step 0 h hp hgt
+  have hm : maybeGc p 0 = { p with g := gcStart p.g } := by
+    unfold maybeGc; rw [hp]; simp only [hgt, if_true]
+  have h1 := (C07_increment_covers_heap (leak := 0) hs.1 (Or.inl rfl)).1 hs.2.1
+  have hroots : ∀ r ∈ (maybeGc p 0).g.roots, (maybeGc p 0).g.marked r = true := by
+    intro r hr
+    rw [hm] at hr ⊢
+    have hr' : r ∈ (gcStart p.g).roots := hr
+    show (gcStart p.g).marked r = true
+    unfold gcStart at hr' ⊢
+    rw [hp] at hr' ⊢
+    simp only at hr' ⊢
+    have hr2 : r ∈ (markAll p.g p.g.roots).roots := hr'
+    rw [markAll_roots] at hr2
+    show (markAll p.g p.g.roots).marked r = true
+    rw [markAll_marked]; simp [hr2]
+  have h2 := h1.2.1 (fun r hr => (markLoop_ext _ _ _ _).mono r (hroots r hr))
+  have hp2 := maybeGc_pinv 0 hs.1
+  have h3 := (C07_increment_covers_heap (leak := 0) hp2 (Or.inl rfl)).2 h2
+  exact ⟨h3.1, h3.2.1⟩
+
+/-! ### the heap bound -/
+
+/-- Runs of one green thread under the real pacing, from a fresh thread: calls of `maybe_gc` (constructor `gc`)
+    interleaved with contract-abiding mutator steps (`mutator`: VM instructions and host calls).  The second index
+    is the number of bytes allocated since the last call of `maybe_gc`.  The hypotheses of the bound are the
+    premises of the constructors: whenever a call of `maybe_gc` starts a cycle the reachable objects have at most
+    `R` bytes and are at most `N`, a foreign budget charge is acceptable (`LeakOK`), and at most `A` bytes are
+    allocated between two calls (one VM instruction, plus the host call it may trigger). -/
+inductive BRun (R A N : Nat) : PSt → Nat → Prop
+  | init : BRun R A N pinit 0
+  | gc {p : PSt} {s : Nat} (leak : Nat) : BRun R A N p s →
+      (StartsCycle p → reachBytes p ≤ R ∧ reachCount p ≤ N) → LeakOK p leak → BRun R A N (maybeGc p leak) 0
+  | mutator {p p' : PSt} {s : Nat} {new pushed : List Nat} : BRun R A N p s → PMutatorOK p p' new pushed →
+      s + (p'.heapBytes - p.heapBytes) ≤ A → BRun R A N p' (s + (p'.heapBytes - p.heapBytes))
+
+theorem brun_rinv {R A N : Nat} {p : PSt} {s : Nat} (r : BRun R A N p s) : RInv R A (N + 3) p s (rho p) := by
+  induction r with
+  | init => exact rinv_init R A (N + 3) _
+  | gc leak _ hRN hl ih => exact rinvN_gc leak ih hl hRN
+  | mutator _ m hA ih => exact rinvN_mut ih m hA
+
+/-- **C07, bounded heap.** If, whenever a cycle starts, the reachable objects have at most `R` bytes and are at
+    most `N`, and at most `A` bytes are allocated between two calls of `maybe_gc`, then at every point of every
+    run `heap_size ≤ 2·R + (3·N + 9)·A`; moreover `heap_size ≤ gc_debt`, and `last_gc_heap_size ≤ R + (N + 3)·A`.
+    (With positive object sizes `N` may be taken as `R`: `C07_reach_count_le_bytes`.) -/
+theorem C07_bounded_heap {R A N : Nat} {p : PSt} {s : Nat} (r : BRun R A N p s) :
+    p.heapBytes ≤ boundB R A N ∧ p.heapBytes ≤ p.debt ∧ p.lastGc ≤ R + (N + 3) * A := by
+  refine ⟨?_, (brun_rinv r).pinv.debt, (brun_rinv r).last⟩
+  rw [boundB_eq]
+  exact rinv_bound (by omega) (brun_rinv r)
+
+/-- The same runs, with the number of calls per cycle bounded through the program's behaviour instead of the
+    number of reachable objects: the third index counts, in the running cycle, the marking increments that stayed
+    in Marking — by `C07_increment_covers_heap` that happens only when the root rescan finds an unmarked root,
+    i.e. when the program has moved a not yet marked object from the heap onto the stack since the last scan
+    (consecutive pops of nested containers) — and every call keeps that count at most `M`. -/
+inductive BRunH (R A M : Nat) : PSt → Nat → Nat → Prop
+  | init : BRunH R A M pinit 0 0
+  | gc {p : PSt} {s hc : Nat} (leak : Nat) : BRunH R A M p s hc → (StartsCycle p → reachBytes p ≤ R) →
+      LeakOK p leak → hitsAfter p leak hc ≤ M → BRunH R A M (maybeGc p leak) 0 (hitsAfter p leak hc)
+  | mutator {p p' : PSt} {s hc : Nat} {new pushed : List Nat} : BRunH R A M p s hc →
+      PMutatorOK p p' new pushed → s + (p'.heapBytes - p.heapBytes) ≤ A →
+      BRunH R A M p' (s + (p'.heapBytes - p.heapBytes)) hc
+
+theorem brunH_rinv {R A M : Nat} {p : PSt} {s hc : Nat} (r : BRunH R A M p s hc) :
+    RInv R A (M + 3) p s (fun _ => rhoH M p hc) := by
+  induction r with
+  | init => exact rinv_init R A (M + 3) _
+  | gc leak _ hR hl hM ih => exact rinvH_gc leak ih hl hR hM
+  | mutator _ m hA ih => exact rinvH_mut ih m hA
+
+/-- **C07, bounded heap, sharp form.** If the reachable objects have at most `R` bytes whenever a cycle starts,
+    at most `A` bytes are allocated between two calls of `maybe_gc`, and in every cycle at most `M` marking
+    increments end with an unmarked root on the stack (`M = 0` for a program that never pops nested containers in
+    consecutive instructions), then every cycle takes at most `M + 3` calls and at every point of every run
+    `heap_size ≤ 2·R + (3·M + 9)·A`. -/
+theorem C07_bounded_heap_hits {R A M : Nat} {p : PSt} {s hc : Nat} (r : BRunH R A M p s hc) :
+    p.heapBytes ≤ boundB R A M ∧ p.heapBytes ≤ p.debt ∧ p.lastGc ≤ R + (M + 3) * A := by
+  refine ⟨?_, (brunH_rinv r).pinv.debt, (brunH_rinv r).last⟩
+  rw [boundB_eq]
+  exact rinv_bound (by omega) (brunH_rinv r)
+
+/-- The same from any observed state that satisfies the run invariant (e.g. a thread created with a copied
+    heap, whose bytes count as allocated before its first call): the invariant is preserved by both kinds of
+    steps and implies the bound. -/
+theorem C07_bounded_heap_from {R A N : Nat} :
+    (∀ p s leak, RInv R A (N + 3) p s (rho p) → (StartsCycle p → reachBytes p ≤ R ∧ reachCount p ≤ N) →
+      LeakOK p leak → RInv R A (N + 3) (maybeGc p leak) 0 (rho (maybeGc p leak))) ∧
+    (∀ p p' s new pushed, RInv R A (N + 3) p s (rho p) → PMutatorOK p p' new pushed →
+      s + (p'.heapBytes - p.heapBytes) ≤ A → RInv R A (N + 3) p' (s + (p'.heapBytes - p.heapBytes)) (rho p')) ∧
+    (∀ p s, RInv R A (N + 3) p s (rho p) → p.heapBytes ≤ boundB R A N) ∧
+    (∀ p s, PInv p → p.g.phase = .idle → p.heapBytes ≤ 2 * p.lastGc + s → s ≤ A → p.lastGc ≤ R + (N + 3) * A →
+      RInv R A (N + 3) p s (rho p)) :=
+  ⟨fun _ _ leak h hRN hl => rinvN_gc leak h hl hRN, fun _ _ _ _ _ h m hA => rinvN_mut h m hA,
+   fun _ _ h => by rw [boundB_eq]; exact rinv_bound (by omega) h,
+   fun _ _ h hp hi hs hl => ⟨h, hs, hl, fun _ => hi, fun hne => absurd hp hne⟩⟩
+
+/-- with positive object sizes the object-count hypothesis follows from the byte hypothesis (`N := R`) -/
+theorem C07_reach_count_le_bytes {p : PSt} {R : Nat} (h : ∀ a ∈ p.g.heap, 1 ≤ p.size a)
+    (hR : reachBytes p ≤ R) : reachCount p ≤ R :=
+  Nat.le_trans (reachCount_le_bytes h) hR
+
+/-- **Tie to the driver.** If the executable contract check accepts a before/after pair of pacing states
+    observed on the real VM, the pair satisfies the contract of the theorems; with the invariant in the
+    before-state it holds in the after-state. -/
+theorem C07_checked_pacing_step {p p' : PSt} {fuel : Nat} (h : PInv p) (hb : pmutatorOKb p p' fuel = true) :
+    PMutatorOK p p' (p'.g.todo.drop p.g.todo.length) (p'.g.gray.take (p'.g.gray.length - p.g.gray.length)) ∧
+    PInv p' :=
+  ⟨pmutatorOKb_sound hb, pmut_pinv h (pmutatorOKb_sound hb)⟩
+
+/-! ### non-vacuity: a loop that allocates garbage -/
+
+namespace Example
+/-- strings only: no children; `ms` lists the marked addresses -/
+def st (ms done todo roots gray : List Nat) (ph : Phase) : St :=
+  { obj := fun a => ⟨[], ms.contains a⟩, done := done, todo := todo, roots := roots, gray := gray, phase := ph }
+def sz (a : Nat) : Nat := if a = 4 then 40 else 10
+
+/-- after the first instruction: string 1 allocated and on the stack -/
+def e1 : PSt := { g := st [] [] [1] [1] [] .idle, size := sz, heapBytes := 10, lastGc := 0, debt := 10 }
+/-- (cycle 1 started) string 2 allocated while marking, string 1 dropped -/
+def e2 : PSt := { g := st [1, 2] [] [1, 2] [2] [2, 1] .marking, size := sz, heapBytes := 20, lastGc := 0, debt := 20 }
+/-- string 3 allocated while sweeping, string 2 dropped -/
+def e3 : PSt := { g := st [1, 2, 3] [] [1, 2, 3] [3] [] .sweeping, size := sz, heapBytes := 30, lastGc := 0, debt := 30 }
+/-- (cycle 1 over: everything survived, `last_gc_heap_size = 30`) a 40-byte string 4 allocated, 3 dropped -/
+def e4 : PSt := { g := st [] [] [1, 2, 3, 4] [4] [] .idle, size := sz, heapBytes := 70, lastGc := 30, debt := 70 }
+/-- (cycle 2 started: 70 > 2·30) string 5 allocated while marking, 4 dropped -/
+def e5 : PSt := { g := st [4, 5] [] [1, 2, 3, 4, 5] [5] [5, 4] .marking, size := sz, heapBytes := 80, lastGc := 30, debt := 80 }
+
+theorem gcB {R A N : Nat} {p : PSt} {s : Nat} (S : List Nat) (r : BRun R A N p s)
+    (h : reachBoundB p S R N = true) : BRun R A N (maybeGc p 0) 0 :=
+  BRun.gc 0 r (fun _ => reachBoundB_sound h) (Or.inl rfl)
+
+theorem mutB {R A N : Nat} {p p' : PSt} {s : Nat} (fuel : Nat) (r : BRun R A N p s)
+    (h : pmutatorOKb p p' fuel = true) (hA : s + (p'.heapBytes - p.heapBytes) ≤ A) :
+    BRun R A N p' (s + (p'.heapBytes - p.heapBytes)) :=
+  BRun.mutator r (pmutatorOKb_sound h) hA
+
+/-- seven VM steps of `while true { s = "…" }` with bounded live data (R = 40 bytes, N = 1 object, A = 40):
+    two complete cycles, the second one reclaims the garbage of the first -/
+theorem run : BRun 40 40 1 (maybeGc (maybeGc e5 0) 0) 0 := by
+  have r0 : BRun 40 40 1 (maybeGc pinit 0) 0 := gcB [] BRun.init (by decide)
+  have r1 := mutB (p' := e1) 10 r0 (by decide) (by decide)
+  have r2 := gcB [1] r1 (by decide)
+  have r3 := mutB (p' := e2) 10 r2 (by decide) (by decide)
+  have r4 := gcB [2] r3 (by decide)
+  have r5 := mutB (p' := e3) 10 r4 (by decide) (by decide)
+  have r6 := gcB [3] r5 (by decide)
+  have r7 := mutB (p' := e4) 10 r6 (by decide) (by decide)
+  have r8 := gcB [4] r7 (by decide)
+  have r9 := mutB (p' := e5) 10 r8 (by decide) (by decide)
+  have r10 := gcB [5] r9 (by decide)
+  exact gcB [5] r10 (by decide)
+
+theorem gcHB {R A M : Nat} {p : PSt} {s hc : Nat} (S : List Nat) (r : BRunH R A M p s hc)
+    (h : reachBoundB p S R (p.g.heap.length) = true) (hM : hitsAfter p 0 hc ≤ M) :
+    BRunH R A M (maybeGc p 0) 0 (hitsAfter p 0 hc) :=
+  BRunH.gc 0 r (fun _ => (reachBoundB_sound h).1) (Or.inl rfl) hM
+
+theorem mutHB {R A M : Nat} {p p' : PSt} {s hc : Nat} (fuel : Nat) (r : BRunH R A M p s hc)
+    (h : pmutatorOKb p p' fuel = true) (hA : s + (p'.heapBytes - p.heapBytes) ≤ A) :
+    BRunH R A M p' (s + (p'.heapBytes - p.heapBytes)) hc :=
+  BRunH.mutator r (pmutatorOKb_sound h) hA
+
+/-- the same seven steps as a run without rescan hits (`M = 0`: every cycle takes three calls) -/
+theorem runH : ∃ hc, BRunH 40 40 0 (maybeGc (maybeGc e5 0) 0) 0 hc := by
+  have r0 : BRunH 40 40 0 (maybeGc pinit 0) 0 _ := gcHB [] BRunH.init (by decide) (by decide)
+  have r1 := mutHB (p' := e1) 10 r0 (by decide) (by decide)
+  have r2 := gcHB [1] r1 (by decide) (by decide)
+  have r3 := mutHB (p' := e2) 10 r2 (by decide) (by decide)
+  have r4 := gcHB [2] r3 (by decide) (by decide)
+  have r5 := mutHB (p' := e3) 10 r4 (by decide) (by decide)
+  have r6 := gcHB [3] r5 (by decide) (by decide)
+  have r7 := mutHB (p' := e4) 10 r6 (by decide) (by decide)
+  have r8 := gcHB [4] r7 (by decide) (by decide)
+  have r9 := mutHB (p' := e5) 10 r8 (by decide) (by decide)
+  have r10 := gcHB [5] r9 (by decide) (by decide)
+  exact ⟨_, gcHB [5] r10 (by decide) (by decide)⟩
+end Example
+
+/-- non-vacuity of `C07_bounded_heap`: the run above satisfies every hypothesis; the peak was 80 bytes, and the
+    second cycle has reclaimed strings 1, 2, 3 (heap list `[5, 4]`, 50 bytes), within the bound 560 -/
+example : (maybeGc (maybeGc Example.e5 0) 0).heapBytes = 50 ∧
+    (maybeGc (maybeGc Example.e5 0) 0).g.heap = [5, 4] ∧
+    (maybeGc (maybeGc Example.e5 0) 0).g.phase = .idle ∧ boundB 40 40 1 = 560 ∧
+    (maybeGc (maybeGc Example.e5 0) 0).heapBytes ≤ boundB 40 40 1 :=
+  ⟨by decide, by decide, by decide, by decide, (C07_bounded_heap Example.run).1⟩
+
+/-- non-vacuity of `C07_bounded_heap_hits`: the sharp bound for the example is 2·40 + 9·40 = 440 -/
+example : (maybeGc (maybeGc Example.e5 0) 0).heapBytes ≤ boundB 40 40 0 ∧ boundB 40 40 0 = 440 := by
+  obtain ⟨hc, r⟩ := Example.runH
+  exact ⟨(C07_bounded_heap_hits r).1, by decide⟩
+
+/-- non-vacuity of `C07_cycle_spans_k_steps` and `C07_increment_covers_heap`: the second cycle of the example
+    (started from `e4`) is a `PCycleRun` of two increments -/
+example : PCycleRun (Reach Example.e4.g) (maybeGc Example.e4 0) (Reach Example.e4.g)
+    (maybeGc (maybeGc (maybeGc Example.e4 0) 0) 0) 2 :=
+  PCycleRun.gc 0 (PCycleRun.gc 0 (PCycleRun.refl _ _) (by decide) (Or.inl rfl)) (by decide) (Or.inl rfl)
+
+end Abra.GCP
